@@ -19,6 +19,7 @@ CFG = {
     "assumptions": [
         "the per-case trees live in a memory-backed directory (/dev/shm/verif-c16-<pid>) when there is one, else in the check's scratch directory; tmpfs and disk are assumed to behave alike for read/write/mkdir/symlink",
         "I/O errors other than not-found / is-a-directory / not-a-directory are not generated (the sandbox runs as root)",
+        "a look-up of a lazily loaded entry through a spelling that differs from the stored key in the trailing separator (`a/` for `a`) may read the handed-in path (the code as it is) or the stored key: the correspondence accepts either, the oracle judges both",
         "after a refused save (some cells may stay lazy in hash order) no environment step is executed, so the partial forcing is unobservable",
         "for stores holding keys with `.`/`..` components or a trailing separator the tree left by a save is not predicted by the model (only the oracle judges it)",
     ],
